@@ -47,13 +47,16 @@ def _case(draw, shard):
 
     heavy = shard % 6 == 1  # one stratum of long multi-chain runs on more data: cross-chain state leaks need many sweeps
     n = 10 if heavy else draw(st.integers(3, 6))
-    dims = 3 if heavy else draw(st.integers(1, 2))
+    dims = 3 if heavy else draw(st.integers(2, 3))
     rows = []
     for m in range(n):
         for s in range(dims):
-            major, minor, normal, t, eps = draw(_row_params())
+            major, minor, normal, t, eps = 1, 1, 2, 1.0, 0.001
             depth = draw(st.sampled_from([100, 60, 300]))
-            alt = min(depth, draw(st.sampled_from([37, 5, 80, 20, 50])) + (7 * m) % 60)
+            # two groups of mutations whose allele fractions are anti-correlated across samples: they cannot sit on one
+            # lineage, so sampled trees branch (nodes with >= 2 children exercise the children convolution and its memo)
+            hi = (m % 2) == (s % 2)
+            alt = min(depth, (draw(st.sampled_from([20, 25, 16])) if hi else draw(st.sampled_from([3, 1, 5]))) * depth // 100 + m % 3)
             rows.append(dict(mutation_id="mut_%s" % "abcdefghijklmnop"[m], sample_id="s%d" % s, ref_counts=depth - alt, alt_counts=alt, major_cn=major, minor_cn=minor, normal_cn=normal, tumour_content=t, error_rate=eps))
     chains = [2, 3, 2, 1, 3, 2][shard % 6]
     variants = []
@@ -76,7 +79,7 @@ def _case(draw, shard):
         iters=(200 if heavy else draw(st.integers(3, 8))) if shard % 3 else draw(st.integers(60, 120)),
         N=10 if heavy else draw(st.integers(2, 5)),
         subtree_prob=draw(st.sampled_from([0.0, 0.5])),
-        conc_update=draw(st.booleans()),
+        conc_update=(shard % 4 != 2),
         variants=variants,
     )
 
@@ -154,6 +157,8 @@ def evaluate(case):
         if sorted(ref) != list(range(case["chains"])):
             raise Violation("chains-missing", "trace holds chains %r, expected 0..%d" % (sorted(ref), case["chains"] - 1), tags)
         classes = ["chains=%d" % case["chains"], "prop:" + case["proposal"]]
+        if any(len({p for _, p in e[2]}) < len(e[2]) for seq in ref.values() for e in seq):
+            classes.append("trace-entry-with-branching-tree")
         if any(len(e[3]) >= 2 for seq in ref.values() for e in seq):
             classes.append("trace-entry-with>=2-outliers")
         if case["outlier_prob"] > 0:
